@@ -83,7 +83,14 @@ def main():
         if rc != 0:
           r["status"] = "patch-does-not-apply"
           r["detail"] = out[-400:]
-          results[key] = r
+          try:
+            cur = json.load(open(resfile))
+          except Exception:
+            cur = {}
+          cur[key] = r
+          results = cur
+          json.dump(cur, open(resfile, "w"), indent=1, sort_keys=True)
+          print("%-40s %s" % (key, r["status"]))
           continue
         if not a.skip_tests:
           r["stable_tests_missing"] = stable_pass(wt)
